@@ -1,17 +1,20 @@
 ------------------------------- MODULE Digest -------------------------------
 (* Compile determinism as a relation on a recorded trace (property C35): every event is
-   [prog, digest, part digests, proc, round] -- one compilation of corpus program `prog` in operating-system
-   process `proc`; the compiler is deterministic on the trace iff the digest (of bytecode, constants, function
+   [prog, digest, part digests, proc, round, count] -- `count` compilations of corpus program `prog` in operating-system
+   process `proc` that all gave this digest (the recorder merges equal outcomes of one process; `round` is the first of them);
+   programs are single scripts/contracts or members of a bundle of programs that import each other ("bundle/program"); the compiler is deterministic on the trace iff the digest (of bytecode, constants, function
    order, type table, globals) is a function of the program: equal prog => equal digest and equal parts.
    TLC evaluates the relation; there is no state to explore. *)
 EXTENDS Naturals, Sequences, FiniteSets, TLC, Json
 Trace == TLCEval(ndJsonDeserialize("trace.ndjson"))
 Progs == {Trace[i].prog : i \in 1..Len(Trace)}
-First(p) == CHOOSE i \in 1..Len(Trace) : Trace[i].prog = p /\ \A j \in 1..(i - 1) : Trace[j].prog # p
-Bad == {i \in 1..Len(Trace) : LET f == Trace[First(Trace[i].prog)] IN Trace[i].digest # f.digest \/ Trace[i].parts # f.parts}
+EventsOf == TLCEval([p \in Progs |-> {i \in 1..Len(Trace) : Trace[i].prog = p}])
+FirstOf == TLCEval([p \in Progs |-> CHOOSE i \in EventsOf[p] : \A j \in EventsOf[p] : i <= j])
+Bad == {i \in 1..Len(Trace) : LET f == Trace[FirstOf[Trace[i].prog]] IN Trace[i].digest # f.digest \/ Trace[i].parts # f.parts}
 \* every program was compiled in at least MinProcs processes and MinRuns times in total (otherwise nothing was compared)
-Compared(p) == [procs |-> Cardinality({Trace[i].proc : i \in {j \in 1..Len(Trace) : Trace[j].prog = p}}),
-                runs  |-> Cardinality({j \in 1..Len(Trace) : Trace[j].prog = p})]
+RECURSIVE SumCounts(_)
+SumCounts(S) == IF S = {} THEN 0 ELSE LET i == CHOOSE x \in S : TRUE IN Trace[i].count + SumCounts(S \ {i})
+Compared(p) == [procs |-> Cardinality({Trace[i].proc : i \in EventsOf[p]}), runs |-> SumCounts(EventsOf[p])]
 CONSTANTS MinProcs, MinRuns
 VARIABLE x
 Init == x = 0
